@@ -801,12 +801,16 @@ func (dr *dirRepo) gc() error {
 					return err
 				}
 			}
-			// the layout is only removed once it has no content, after that the repo needs to be initialized again
-			err := errors.Join(rm(filepath.Join(dr.path, indexFile)), rm(filepath.Join(dr.path, layoutFile)))
-			if err != nil {
+			// the layout is only removed once it has no content, index.json first: a directory must not be left
+			// with an index.json and without the oci-layout file, the index would be served and never completed
+			if err := rm(filepath.Join(dr.path, indexFile)); err != nil {
 				return err
 			}
+			// after that the repo needs to be initialized again, also when the next removal fails
 			dr.exists = false
+			if err := rm(filepath.Join(dr.path, layoutFile)); err != nil {
+				return err
+			}
 			// the directory itself may contain nested repositories
 			return rm(dr.path)
 		}()
